@@ -32,7 +32,7 @@ Section Run.
         let fr := fired vld getter_c fac_value mdef_value adapt_value ydef_value pl a o in
         let skip := match pl with FaultCall _ _ => fr | _ => false end in
         let '(tw', outt, lgt) := if skip then (tw, Ok, []) else stp NoFault tw o in
-        (o, pl, fr, mkObs out a' lg 0, mkObs outt tw' lgt 0) :: run2 a' tw' r
+        (o, pl, fr, mkObs out a' lg 0 0, mkObs outt tw' lgt 0 0) :: run2 a' tw' r
     end.
 End Run.
 
@@ -50,8 +50,14 @@ Definition st_equiv (a b : st) : bool :=
   && opt_eqb Z.eqb (f a) (f b) && opt_eqb Z.eqb (m a) (m b) && Z.eqb (p a) (p b)
   && opt_eqb Z.eqb (c a) (c b) && Z.eqb (ad a) (ad b) && opt_eqb Z.eqb (y a) (y b) && Z.eqb (ad2 a) (ad2 b).
 
-(* codes: 100*step + 1 outcome, 2 state of the faulted object, 3 handler log, 4 fired flag, 5 twin state, 6 registrations *)
-Fixpoint corr_hist (reg0 : Z) (i : Z) (a tw : st) (h : list hstep) : list Z :=
+Definition is_opaque (o : op) : bool := match o with Opaque _ => true | _ => false end.
+(* handlers 6 (observer with a user filter) and 7 (getter of the depends_on property) are outside the model *)
+Definition unmodelled_handler (pl : plan) : bool := match pl with FaultHandler j _ => Nat.leb 6 j | _ => false end.
+
+(* codes: 100*step + 1 outcome, 2 state of the faulted object, 3 handler log, 4 fired flag, 5 twin state,
+   6 registrations (a modelled operation registers or removes nothing: the digest stays what it was).
+   Operations outside the model (Opaque) are skipped: only the law speaks about them. *)
+Fixpoint corr_hist (rega regt : Z) (i : Z) (a tw : st) (h : list hstep) : list Z :=
   match h with
   | [] => []
   | (o, pl, fr, oa, ot) :: r =>
@@ -59,15 +65,16 @@ Fixpoint corr_hist (reg0 : Z) (i : Z) (a tw : st) (h : list hstep) : list Z :=
       let mfr := mfired pl a o in
       let skip := match pl with FaultCall _ _ => mfr | _ => false end in
       let '(tw', _, _) := if skip then (tw, Ok, []) else mstep NoFault tw o in
-      map (fun cd => 100 * i + cd)
+      (if is_opaque o then []
+       else map (fun cd => 100 * i + cd)
           (chk 1 (outcome_eqb out (o_out oa))
            ++ chk 2 (st_equiv a' (o_st oa))
            ++ chk 3 (log_eqb lg (o_log oa))
-           ++ chk 4 (Bool.eqb mfr fr)
+           ++ chk 4 (unmodelled_handler pl || Bool.eqb mfr fr)
            ++ chk 5 (st_equiv tw' (o_st ot))
-           ++ chk 6 (Z.eqb (o_reg oa) reg0 && Z.eqb (o_reg ot) reg0))   (* no operation of the model registers or removes a handler *)
-      ++ corr_hist reg0 (i + 1) (o_st oa) (o_st ot) r
+           ++ chk 6 (Z.eqb (o_reg oa) rega && Z.eqb (o_reg ot) regt)))
+      ++ corr_hist (o_reg oa) (o_reg ot) (i + 1) (o_st oa) (o_st ot) r
   end.
 
-Definition corr_codes (cs : case) : list Z := let '(init, reg0, h) := cs in corr_hist reg0 0 init init h.
+Definition corr_codes (cs : case) : list Z := let '(init, reg0, h) := cs in corr_hist reg0 reg0 0 init init h.
 Definition law_codes (cs : case) : list Z := let '(init, _, h) := cs in law_hist 0 init h.
